@@ -12,6 +12,7 @@ func init() {
 	vRegister("VH_C13_CappedString", VH_C13_CappedString)
 	vRegister("VH_C13_StringDecode", VH_C13_StringDecode)
 	vRegister("VH_C13_ClassAdReaders", VH_C13_ClassAdReaders)
+	vRegister("VH_C13_CappedConsumption", VH_C13_CappedConsumption)
 }
 
 // vhAdversary scripts up to three frames of symbolic length (<= maxLen each),
@@ -190,5 +191,31 @@ func VH_C13_ClassAdReaders() {
 		vCover("reader-error")
 	} else {
 		vCover("reader-ok")
+	}
+}
+
+// VH_C13_CappedConsumption: a capped string read on an encrypted stream whose
+// peer announces an arbitrary length and then trickles data in small frames: the
+// reader pulls no more than the length prefix, the cap and one frame of slack
+// from the stream - it does not buffer the oversized value before failing.
+//
+//verif:unwind 16
+func VH_C13_CappedConsumption() {
+	r := &vhStream{enc: true}
+	r.feed(vBlob("prefix", 8), false)
+	names := [3]string{"t0", "t1", "t2"}
+	for i := 0; i < 3; i++ {
+		r.feed(vBytes(names[i], 4), i == 2)
+	}
+	cap := vInt("cap")
+	vAssume(cap >= 1 && cap <= 3)
+	m := NewMessageFromStream(r)
+	s, err := m.GetStringWithMaxSize(vhCtx, cap)
+	vAssert(len(s) <= cap, "result-within-cap")
+	vAssert(r.nread <= 8+cap+4, "consumption-bounded-by-cap-not-by-announced-length")
+	if err != nil {
+		vCover("capped-error")
+	} else {
+		vCover("capped-ok")
 	}
 }
